@@ -16,7 +16,7 @@ LEVEL = "exploration"
 SHARD = 80
 
 
-def helper_case(rng, fam, g, doc: Node, docs, helper):
+def helper_case(rng, fam, g, doc: Node, docs, helper, fixed=None):
     info = S.info_for(fam)
     sc = gen.family(fam)
     n = doc.content.size
@@ -31,13 +31,16 @@ def helper_case(rng, fam, g, doc: Node, docs, helper):
             a = rng.choice(deep)
             near = [p for p in deep if a <= p <= a + 6]
             c = rng.choice(near) if near else a
+    fixed = fixed or {}
+    if "a" in fixed:
+        a, c = fixed["a"], fixed.get("c", fixed["a"])
     tr = Transform(doc)
     hcrash, approved, in_range, performed, structure_only = False, False, True, False, False
     args = {"pos": a, "to": c}
     err = ""
     try:
         if helper == "can_split":
-            depth = rng.randint(1, 3)
+            depth = fixed.get("depth") or rng.randint(1, 3)
             args["depth"] = depth
             approved = bool(structure.can_split(doc, a, depth))
             if approved:
@@ -51,7 +54,7 @@ def helper_case(rng, fam, g, doc: Node, docs, helper):
                 out, err = ops.run(tr, lambda t: t.join(a))
                 performed = out == "ok"
         elif helper == "join_point":
-            d = rng.choice([-1, 1])
+            d = fixed.get("dir") or rng.choice([-1, 1])
             args["dir"] = d
             p = structure.join_point(doc, a, d)
             approved = p is not None
@@ -125,12 +128,42 @@ def helper_case(rng, fam, g, doc: Node, docs, helper):
 HELPERS = ["can_split", "can_join", "join_point", "lift_target", "lift_target", "lift_target", "find_wrapping", "insert_point", "drop_point"]
 
 
+def approved_candidates(rng, doc, cap):
+    """enumerate positions / ranges the helpers approve (the helpers are cheap), so that the edits they
+    approve are actually performed instead of mostly drawing declined arguments"""
+    ps = S.boundary_positions(doc)
+    out = []
+
+    def safe(f):
+        try:
+            return f()
+        except Exception:  # noqa: BLE001
+            return None
+    joins = [p for p in ps if safe(lambda: structure.can_join(doc, p))]
+    out += [("can_join", {"a": p}) for p in rng.sample(joins, min(len(joins), cap))]
+    jps = [(p, d) for p in ps for d in (-1, 1) if safe(lambda: structure.join_point(doc, p, d)) is not None]
+    out += [("join_point", {"a": p, "dir": d}) for p, d in rng.sample(jps, min(len(jps), cap))]
+    splits = [(p, d) for p in ps for d in (1, 2, 3) if safe(lambda: structure.can_split(doc, p, d))]
+    out += [("can_split", {"a": p, "depth": d}) for p, d in rng.sample(splits, min(len(splits), cap))]
+    pairs = [(x, y) for x in ps for y in ps if x <= y]
+    pairs = rng.sample(pairs, min(len(pairs), 150))
+    lifts = []
+    for x, y in pairs:
+        rg = safe(lambda: doc.resolve(x).block_range(doc.resolve(y)))
+        if rg is not None and safe(lambda: structure.lift_target(rg)) is not None:
+            lifts.append((x, y))
+    out += [("lift_target", {"a": x, "c": y}) for x, y in rng.sample(lifts, min(len(lifts), 2 * cap))]
+    return out
+
+
 def generate(rng: random.Random, tier: str):
     quick = tier == "quick"
     for fam in gen.FAMILY:
         g, docs = S.family_docs(rng, fam, 10 if quick else 150)
         for doc in docs:
-            for _ in range(28 if quick else 100):
+            for helper, fixed in approved_candidates(rng, doc, 3 if quick else 10):
+                yield helper_case(rng, fam, g, doc, docs, helper, fixed)
+            for _ in range(16 if quick else 60):
                 yield helper_case(rng, fam, g, doc, docs, rng.choice(HELPERS))
 
 
